@@ -79,7 +79,7 @@ PROPS = {
         'explanation': 'acquire_block bumps the frontier only when both list links are zero, by exactly one block; proved on x86-64, AArch64, RISC-V',
     },
     'C11': {
-        'units': ['x86_moves', 'a64_code', 'rv64_code'],
+        'units': ['x86_moves', 'a64_moves', 'rv64_moves', 'a64_code', 'rv64_code', 'x86_code'],
         'aux': ['native_moves'],
         'level': 'other',
         'claim': 'Backend pieces of the parallel-moves algorithm (mov, store_temporary, restore_temporary) are proved by Verus for all placements; the generic forest algorithm, the reference-count dispatch and their composition through the real Substitute::code_statement are checked exhaustively for every map of m<=5 new to n<=5 old variables, every kind assignment and every window offset across each register/spill boundary on all three backends (m,n<=4 in the quick tier), by executing the emitted code on a machine model with distinct tokens. The exhaustive part is a bounded check, not a proof.',
@@ -109,7 +109,7 @@ PROPS = {
         'explanation': 'CBMC contracts for print_i64/println_i64 and for the generated drivers (n = 0..7), Verus contract for the argument shuffle, bounded native execution of the routine skeleton',
     },
     'C14': {
-        'units': ['x86_code', 'a64_code', 'rv64_code', 'x86_routine', 'a64_routine', 'x86_moves', 'x86_memory', 'a64_memory', 'rv64_memory'],
+        'units': ['x86_code', 'a64_code', 'rv64_code', 'x86_routine', 'a64_routine', 'x86_moves', 'a64_moves', 'rv64_moves', 'x86_memory', 'a64_memory', 'rv64_memory'],
         'aux': ['native_labels', 'kani_fresh_label'],
         'level': 'proof',
         'claim': 'Every instruction pushed by any verified emitter satisfies the operand-range predicate of its printed form (immediates, displacements, register numbers), jump-table entries have the stride assumed by the tag arithmetic, spill and field offsets are in range; proved for all inputs. Label uniqueness / symbol collisions are not decided.',
